@@ -41,7 +41,7 @@ func Run(r *ev.Run) {
 		cases = append(cases, ucase{u: u, desc: desc, nilLoad: len(cases)%2 == 0})
 	})
 	gen.Worlds07(func(u *gen.Universe, desc string) {
-		cases = append(cases, ucase{u: u, desc: desc, nilLoad: len(cases)%2 == 0})
+		cases = append(cases, ucase{u: u, desc: desc, nilLoad: len(cases)%2 == 0 && len(u.Docs) == 0})
 	})
 	nWorlds := len(cases)
 	nMulti := 0
